@@ -61,7 +61,9 @@ def c01(tier):
                  recv_spec('recv-N6-nonfin-bytewise', tags, N=6, first_nonfin=True, no_rsv=True, cuts='bytewise'),
                  recv_spec('frag-text-L3', tags, family=dict(opcode=1, L=3, max_frags=3)),
                  recv_spec('frag-binary-L2-pong', tags, family=dict(opcode=2, L=2, max_frags=3, ctrl=10), cuts='bytewise'),
-                 recv_spec('length-forms', tags, long_frame=True, xval_stride=5)] + carry_specs(tags, 2)
+                 recv_spec('length-forms', tags, long_frame=True, xval_stride=5),
+                 recv_spec('after-earlier-connection-text', tags, family=dict(opcode=1, L=2, max_frags=2), earlier=EARLIER),
+                 recv_spec('after-earlier-connection-binary', tags, family=dict(opcode=2, L=2, max_frags=2, ctrl=9), earlier=EARLIER)] + carry_specs(tags, 2)
     else:
         specs = [recv_spec('recv-N7', tags, N=7), recv_spec('recv-N9-nonfin', tags, N=9, first_nonfin=True, no_rsv=True),
                  recv_spec('recv-N7-nonfin-bytewise', tags, N=7, first_nonfin=True, no_rsv=True, cuts='bytewise'),
@@ -71,7 +73,9 @@ def c01(tier):
                  recv_spec('frag-binary-L3-pong', tags, family=dict(opcode=2, L=3, max_frags=3, ctrl=10), cuts='bytewise'),
                  recv_spec('length-forms', tags, long_frame=True, xval_stride=5),
                  recv_spec('length-forms-text-1000', tags + ['C05'], long_frame=True, long_opcode=1, cuts=[1000] * 70, xval_stride=5),
-                 recv_spec('length-forms-4096', tags, long_frame=True, cuts=[4096] * 20, xval_stride=5)] + carry_specs(tags, 3)
+                 recv_spec('length-forms-4096', tags, long_frame=True, cuts=[4096] * 20, xval_stride=5),
+                 recv_spec('after-earlier-connection-text', tags, family=dict(opcode=1, L=3, max_frags=3), earlier=EARLIER, cuts='bytewise'),
+                 recv_spec('after-earlier-connection-binary', tags, family=dict(opcode=2, L=3, max_frags=3, ctrl=9), earlier=EARLIER)] + carry_specs(tags, 3)
     specs.append(Spec('frame-step', 'checks.frame', 'run_frame_step', dict(max_chunk=3 if tier == 'quick' else 5, k_max=1 if tier == 'quick' else 2,
                                                                             opcode_list=[2, 1] if tier == 'quick' else [2, 1, 0], xval_stride=11),
                       what='INDUCTIVE STEP on the payload-read state: announced length L symbolic (7/16/63-bit, every value at once), k<=1/2 bytes gathered, '
@@ -92,6 +96,10 @@ def c04(tier):
         recv_spec('close-codes', tags + ['C01'], N=7, first_opcodes=[8], no_rsv=True),
     ]
     # the same violations received in the CLOSING state (the application called close() at Ready)
+    # permessage-deflate OFFERED by the client (compress=True) and DECLINED by the server (no extension header in the reply):
+    # nothing was negotiated, so RSV1 is as reserved as RSV2/RSV3 and text is validated incrementally as usual
+    fam.append(recv_spec('offer-declined-N4', tags + ['C01', 'C05'], N=4 if tier == 'quick' else 5, offer_declined=True))
+    fam.append(recv_spec('offer-declined-text-bytewise', tags + ['C01', 'C05'], N=5, first_opcodes=[1], offer_declined=True, cuts='bytewise'))
     fam.append(recv_spec('closing-state-N4', tags + ['C01'], N=4 if tier == 'quick' else 5, app_close_at_ready=True))
     fam.append(recv_spec('closing-state-close-codes', tags + ['C01'], N=5 if tier == 'quick' else 6, first_opcodes=[8], no_rsv=True,
                          app_close_at_ready=True))
@@ -125,8 +133,9 @@ def c14(tier):
 
 
 # endings of an earlier connection (another WebSocket object in the same process): clean text, text cut inside a character,
-# invalid UTF-8 (connection failed), a fragmented text left unfinished at EOF, a binary message
-EARLIER = ['810161', '8102e282', '81018f', '0101e2', '8201ff']
+# invalid UTF-8 (connection failed), a fragmented text left unfinished at EOF, a binary message, a frame cut inside its header / extended
+# length / payload, a fragmented binary + Ping left unfinished; each ended by EOF or a socket error; on another object or on the SAME object
+EARLIER = ['810161', '8102e282', '81018f', '0101e2', '8201ff', '81', '817e00', '81056162', '0201ff8900']
 
 
 # text messages on a connection with permessage-deflate negotiated (abstract zlib of C06): compressed or not, in 1-2 fragments with every
